@@ -9,6 +9,7 @@ package rules
 
 import (
 	"fmt"
+	"go/constant"
 	"go/token"
 
 	"golang.org/x/tools/go/ssa"
@@ -37,7 +38,7 @@ func runFmtBShape(m *model.Model, s *ob.Set) {
 			if !ok {
 				continue
 			}
-			cal := call.Call.StaticCallee()
+			cal := model.Unthunk(call.Call.StaticCallee())
 			if cal == nil || cal.Pkg == nil || cal.Pkg.Pkg.Path() != "strconv" {
 				continue
 			}
@@ -114,6 +115,61 @@ func runFmtBShape(m *model.Model, s *ob.Set) {
 					continue
 				}
 				if appendsByteConst(call, '0') {
+					pad = true
+				}
+			}
+		}
+	}
+	// a padding written in blocks: append(buf, zeros[:n]...) with zeros a constant string of '0'
+	// and n computed from Q
+	if !pad {
+		var fromQ2 func(v ssa.Value, d int, seen map[ssa.Value]bool) bool
+		fromQ2 = func(v ssa.Value, d int, seen map[ssa.Value]bool) bool {
+			if sameQ(v) {
+				return true
+			}
+			if d == 0 || seen[v] {
+				return false
+			}
+			seen[v] = true
+			switch x := stripConv(v).(type) {
+			case *ssa.BinOp:
+				return fromQ2(x.X, d-1, seen) || fromQ2(x.Y, d-1, seen)
+			case *ssa.Phi:
+				for _, e := range x.Edges {
+					if fromQ2(e, d-1, seen) {
+						return true
+					}
+				}
+			}
+			return false
+		}
+		allZeros := func(v ssa.Value) bool {
+			k, ok := v.(*ssa.Const)
+			if !ok || k.Value == nil || k.Value.Kind() != constant.String {
+				return false
+			}
+			sv := constant.StringVal(k.Value)
+			if sv == "" {
+				return false
+			}
+			for i := 0; i < len(sv); i++ {
+				if sv[i] != '0' {
+					return false
+				}
+			}
+			return true
+		}
+		for _, b := range fn.Blocks {
+			if !live[b.Index] {
+				continue
+			}
+			for _, in := range b.Instrs {
+				call, ok := in.(*ssa.Call)
+				if !ok || model.BuiltinName(&call.Call) != "append" || len(call.Call.Args) != 2 {
+					continue
+				}
+				if sl, ok := call.Call.Args[1].(*ssa.Slice); ok && allZeros(sl.X) && sl.High != nil && fromQ2(sl.High, 8, map[ssa.Value]bool{}) {
 					pad = true
 				}
 			}
